@@ -44,6 +44,10 @@ type C12Case struct {
 	// the mapping name in capitals) and everything is loaded again, as after a change notification. 2: the file that was
 	// served is made invalid by that edit (same length), so the next one in the order has to be served.
 	Resave int `json:"resave,omitempty"`
+	// Mtime: what the clock says about the second version. 0: written now. 1: it keeps the modification time of the first
+	// version (cp -p, rsync -t, two saves within one tick). 2: a day older than the first (a backup put back). 3: the first
+	// versions were dated an hour into the future (a clock that was wrong at the time), the second is written now.
+	Mtime int `json:"mtime,omitempty"`
 }
 
 func c12Config(tag string, id [4]uint16) string {
@@ -109,6 +113,15 @@ func c12Setup(c *C12Case) (string, error) {
 	}
 	if err := c12WriteCandidates(root, c, write, false, -1, -1); err != nil {
 		return root, err
+	}
+	if c.Mtime == 3 {
+		future := time.Now().Add(time.Hour)
+		_ = filepath.Walk(root, func(p string, info os.FileInfo, err error) error {
+			if err == nil && info.Mode().IsRegular() {
+				_ = os.Chtimes(p, future, future)
+			}
+			return nil
+		})
 	}
 	for i, dir := range c.Others {
 		other := [4]uint16{0x7777, uint16(i + 1), 0x1, 0x1}
@@ -343,7 +356,19 @@ func checkC12(c C12Case) (bool, *Violation) {
 			if dir == c.MissingDir {
 				return nil
 			}
-			return os.WriteFile(filepath.Join(root, c12Dirs[dir], name), data, 0o644)
+			p := filepath.Join(root, c12Dirs[dir], name)
+			old, serr := os.Stat(p)
+			if err := os.WriteFile(p, data, 0o644); err != nil {
+				return err
+			}
+			if serr == nil && (c.Mtime == 1 || c.Mtime == 2) {
+				mt := old.ModTime()
+				if c.Mtime == 2 {
+					mt = mt.Add(-24 * time.Hour)
+				}
+				return os.Chtimes(p, mt, mt)
+			}
+			return nil
 		}
 		brokenClass, brokenK := -1, -1
 		if c.Resave == 2 && served >= 0 {
@@ -360,6 +385,9 @@ func checkC12(c C12Case) (bool, *Violation) {
 		}
 		classify("candidates saved again in place and reloaded")
 		classifyIf(brokenK >= 0, "the served file became invalid by the edit")
+		classifyIf(c.Mtime == 1, "second version keeps the modification time of the first")
+		classifyIf(c.Mtime == 2, "second version is dated a day before the first")
+		classifyIf(c.Mtime == 3, "first version dated into the future")
 		v = evaluate(true, brokenClass, brokenK)
 		if v != nil {
 			v.Message = "after every candidate file was saved again in place (same length) and the configurations were loaded again: " + v.Message
@@ -445,6 +473,9 @@ func genC12(t *rapid.T) C12Case {
 	}
 	if c.MissingDir < 0 {
 		c.Resave = rapid.SampledFrom([]int{0, 0, 0, 1, 2}).Draw(t, "resave")
+		if c.Resave > 0 {
+			c.Mtime = rapid.SampledFrom([]int{0, 0, 1, 2, 3}).Draw(t, "mtime")
+		}
 	}
 	return c
 }
@@ -466,7 +497,7 @@ func TestC12Matrix(t *testing.T) {
 					if idx%r.Shards != r.Shard {
 						continue
 					}
-					c := C12Case{MissingDir: -1, ID: [4]uint16{3, 0x46d, 0xc31c, 0x110}, DevType: dt, Resave: idx % 3}
+					c := C12Case{MissingDir: -1, ID: [4]uint16{3, 0x46d, 0xc31c, 0x110}, DevType: dt, Resave: idx % 3, Mtime: (idx / 3) % 4}
 					for k := 0; k < 4; k++ {
 						c.Kbd[k] = kb&(1<<k) != 0
 						c.Pad[k] = pd&(1<<k) != 0
